@@ -7,7 +7,8 @@
               absent is NOT touched (and a field with `omitempty` is absent whenever the sender's value is empty);
      map      both: the decoded entries are put into the existing map, all other keys stay: the maps are MERGED; a nil
               map on the wire (msgpack nil, JSON null) resets the destination. Value of a key that exists already:
-              ugorji decodes on top of the old value (also through a pointer), encoding/json into a new zero value;
+              ugorji decodes on top of the old value (also through a pointer; a nil wire value makes the entry the zero
+              value, i.e. a nil pointer), encoding/json into a new zero value;
      slice    both: the length becomes the wire's length; element i is decoded on top of the old element i when there is
               one (a nil slice on the wire resets). Not modelled: both libraries keep the backing array, so elements
               between an earlier, longer length and the capacity can show through when the slice grows again;
@@ -85,8 +86,12 @@ Fixpoint dec_onto (prev : val) (t : ty) (w : wire) {struct w} : result val :=
                 match m with
                 | [] => Ok []
                 | (k, x) :: r =>
-                    (* ugorji decodes the value on top of the value the key had; encoding/json into a new zero value *)
-                    rbind (dec_onto (match c, slookup k pm with Msgpack, Some p0 => p0 | _, _ => zero_val t' end) t' x)
+                    (* ugorji decodes the value on top of the value the key had - unless the wire value is nil, which
+                       sets the entry to the zero value (a nil pointer) -; encoding/json into a new zero value *)
+                    rbind (dec_onto (match c, x, slookup k pm with
+                                     | Msgpack, WNil, _ => zero_val t'
+                                     | Msgpack, _, Some p0 => p0
+                                     | _, _, _ => zero_val t' end) t' x)
                           (fun v => rbind (go r) (fun vs => Ok ((k, v) :: vs)))
                 end) m) (fun vs => Ok (VMap (map_merge pm vs)))
   | TPtr t', WNil =>
